@@ -120,7 +120,9 @@ func c19World(t *testing.T, r *simcore.Run) any {
 
 	n := 5 + tp.Intn(60, "updates")
 	gapKinds := []time.Duration{0, 1, time.Millisecond, 999 * time.Millisecond, time.Second, time.Second + 1,
-		2 * time.Second, 2*time.Second + 1, 3 * time.Second, 6 * time.Second, 6*time.Second + 1, 16 * time.Second, 64 * time.Second, 301 * time.Second, 600 * time.Second}
+		2 * time.Second, 2*time.Second + 1, 3 * time.Second, 6 * time.Second, 6*time.Second + 1, 16 * time.Second, 64 * time.Second, 301 * time.Second, 600 * time.Second,
+		// outages: hours to weeks without an update (the gain decay 0.999^dt reaches zero after some eight days)
+		6 * time.Hour, 9 * 24 * time.Hour, 30 * 24 * time.Hour}
 	regime := tp.Intn(4, "regime") // 0 mixed, 1 steady 1s, 2 bursts at one reading, 3 sparse
 
 	// model state
@@ -195,7 +197,14 @@ func c19World(t *testing.T, r *simcore.Run) any {
 			if tp.Bool(1, 2, "neg") {
 				off = -off
 			}
-			weight := []float64{0, 1, 3, 3.0000001, 4, 49, 50, 100, 149, 150, 1000, 1e6}[tp.Intn(12, "w")]
+			weight := []float64{0, 1, 3, 3.0000001, 4, 49, 50, 100, 149, 150, 1000, 1e6, 150, 1000,
+				math.NaN(), math.Inf(1), math.Inf(-1), -1, math.MaxFloat64, math.SmallestNonzeroFloat64}[tp.Intn(20, "w")]
+			if weight != weight || math.IsInf(weight, 0) {
+				r.Probe("weight-not-finite")
+			}
+			if gap >= 6*time.Hour {
+				r.Probe("outage-hours-to-weeks")
+			}
 
 			if realDriver {
 				// sane actuation, seen at the kernel: while a slew is in progress the frequency in force
